@@ -20,7 +20,7 @@ def _run(arg):
     from vcheck import common
     t = time.time()
     r = common._unit((modname, cfg, budget, cap))
-    name = (cfg.get("program") or {}).get("name") if isinstance(cfg, dict) else str(cfg)
+    name = ((cfg.get("program") or {}).get("name") or str(cfg.get("producers"))) if isinstance(cfg, dict) else str(cfg)
     return name, budget, {k: v for k, v in (cfg.get("cfg") or {}).items()} if isinstance(cfg, dict) else {}, \
         r["stats"]["executions"], r["stats"]["capped"], sorted({v["sig"] for v in r["viols"]}), \
         [v["msg"][:300] for v in r["viols"][:2]], round(time.time() - t, 1)
@@ -54,7 +54,10 @@ def main():
         seen.add(name)
         if a.cfg:
             cfg = dict(cfg)
-            cfg["cfg"] = dict(cfg.get("cfg") or {}, **json.loads(a.cfg))
+            if "program" in cfg:
+                cfg["cfg"] = dict(cfg.get("cfg") or {}, **json.loads(a.cfg))
+            else:
+                cfg.update(json.loads(a.cfg))   # component harness: flat configuration
         if a.budget:
             budget = json.loads(a.budget)
         sel.append((modname, cfg, budget, a.cap or cap))
